@@ -710,3 +710,123 @@ def rule_namespace_normal_form(ctx, rep: Report, rid="Y6"):
                     f"{' followed by the named components' if v[0] == 'list' and v[2] else ''} (abstract value {v}); the library API expects "
                     f"['', 'gtsam', 'sub'] - with any other form no namespace of the input matches and an empty module is written without a word",
                     f"{rel}:{ctor.lineno}")
+
+
+# ------------------------------------------------------------------------------------------------------------------
+# Y7: a part that the main file declares and calls is written for every additional file, whatever that file holds
+def exits_before(fn, is_event) -> List[Tuple[int, str]]:
+    """Normal exits of fn (return statements, falling off the end) that some path reaches without having executed a
+    statement for which `is_event` holds.  Loops may run zero times; `raise` is not a normal exit; an event inside a
+    branch counts for that branch only."""
+    bad: List[Tuple[int, str]] = []
+
+    def has_event(st) -> bool:
+        return any(is_event(x) for x in ast.walk(st))
+
+    def seq(stmts, states: Set[bool]) -> Set[bool]:
+        for st in stmts:
+            if not states:
+                break
+            states = step(st, states)
+        return states
+
+    def step(st, states: Set[bool]) -> Set[bool]:
+        if isinstance(st, ast.Return):
+            if False in states and not (st.value is not None and has_event(st.value)):
+                bad.append((st.lineno, "return"))
+            return set()
+        if isinstance(st, ast.Raise):
+            return set()
+        if isinstance(st, ast.If):
+            pre = {True} if has_event(st.test) else states
+            return seq(st.body, pre) | seq(st.orelse, pre)
+        if isinstance(st, (ast.For, ast.While)):
+            return states | seq(st.body, states) | seq(st.orelse, states)
+        if isinstance(st, ast.With):
+            pre = {True} if any(has_event(i.context_expr) for i in st.items) else states
+            return seq(st.body, pre)
+        if isinstance(st, ast.Try):
+            a = seq(st.body, states)
+            out = seq(st.orelse, a) if st.orelse else a
+            for h in st.handlers:
+                out |= seq(h.body, states | a)
+            return seq(st.finalbody, out) if st.finalbody else out
+        if isinstance(st, (ast.FunctionDef, ast.ClassDef)):
+            return states
+        if isinstance(st, (ast.Break, ast.Continue)):
+            return states          # over-approximation: the state flows on to after the loop
+        return {True} if has_event(st) else states
+
+    end = seq(fn.body, {False})
+    if False in end:
+        bad.append((fn.body[-1].lineno if fn.body else fn.lineno, "end of function"))
+    return bad
+
+
+def _write_sites(fn, prog=None, ci=None) -> List[Tuple[ast.Call, ast.AST, ast.AST]]:
+    """(call, path expression, text expression) for `with open(P, 'w'...) as f: f.write(X)`, `Path(P).write_text(X)`, and
+    calls of a helper method that does nothing else with two of its parameters on every path (`self._write_cpp(P, X)`)."""
+    out = []
+    for w in ast.walk(fn):
+        if prog is not None and isinstance(w, ast.Call) and isinstance(w.func, ast.Attribute) and isinstance(w.func.value, ast.Name) \
+                and w.func.value.id in ("self", "cls", ci.name):
+            h = prog.find_method(ci, w.func.attr)
+            if h is not None and h[1] is not fn:
+                inner = _write_sites(h[1])
+                hp = func_params(h[1])
+                if len(inner) == 1 and isinstance(inner[0][1], ast.Name) and isinstance(inner[0][2], ast.Name) and inner[0][1].id in hp \
+                        and inner[0][2].id in hp and not exits_before(h[1], lambda x, c=inner[0][0]: x is c):
+                    try:
+                        b = bind_call(h[1], w, drop_self=not any(unparse(d) == "staticmethod" for d in h[1].decorator_list))
+                    except AnalysisError:
+                        continue
+                    if inner[0][1].id in b and inner[0][2].id in b:
+                        out.append((w, b[inner[0][1].id], b[inner[0][2].id]))
+            continue
+    for w in ast.walk(fn):
+        if isinstance(w, ast.With):
+            for it in w.items:
+                c = it.context_expr
+                if isinstance(c, ast.Call) and unparse(c.func) in ("open", "io.open") and c.args and isinstance(it.optional_vars, ast.Name):
+                    mode = c.args[1] if len(c.args) > 1 else next((k.value for k in c.keywords if k.arg == "mode"), None)
+                    if not (isinstance(mode, ast.Constant) and isinstance(mode.value, str) and ("w" in mode.value or "x" in mode.value)):
+                        continue
+                    for x in ast.walk(w):
+                        if isinstance(x, ast.Call) and isinstance(x.func, ast.Attribute) and x.func.attr == "write" \
+                                and isinstance(x.func.value, ast.Name) and x.func.value.id == it.optional_vars.id and x.args:
+                            out.append((x, c.args[0], x.args[0]))
+        elif isinstance(w, ast.Call) and isinstance(w.func, ast.Attribute) and w.func.attr == "write_text" and w.args:
+            recv = w.func.value
+            p = recv.args[0] if isinstance(recv, ast.Call) and unparse(recv.func) in ("Path", "pathlib.Path") and recv.args else recv
+            out.append((w, p, w.args[0]))
+    return out
+
+
+def rule_every_part_is_written(ctx, rep: Report, rid="Y7"):
+    """The main file's output declares and calls one initialiser per additional file *unconditionally* (Y2), so the
+    definition has to exist for every additional file: wrap_submodule - and wrap for the main part - write the text
+    that wrap_file returned on every path to a normal exit, to the file named after the initialiser."""
+    prog = ctx.prog
+    ci = prog.cls("PybindWrapper")
+    for name in ("wrap_submodule", "wrap"):
+        fn = prog.method("PybindWrapper", name)
+        loc = f"{ci.mod.rel}:{fn.lineno}"
+        sites = _write_sites(fn, prog, ci)
+        wrapped = [s for s in sites if any(isinstance(c, ast.Call) and unparse(c.func) == "self.wrap_file" for c in ast.walk(inline_locals(fn, s[2])))]
+        rep.add(rid, f"{name}:the text written is what wrap_file returned", bool(wrapped) and len(wrapped) == len(sites),
+                f"{len(sites)} write(s), {len(wrapped)} of the wrap_file result: {[unparse(s[2])[:40] for s in sites]}", loc)
+        calls = {id(s[0]) for s in wrapped}
+        missing = exits_before(fn, lambda x: id(x) in calls)
+        rep.add(rid, f"{name}:every normal exit is preceded by the write of the generated text", not missing,
+                f"exit(s) {missing} can be reached without the output having been written: the main file still declares and calls the "
+                f"initialiser of every additional file, so a part that is silently not produced (blank file, nothing to bind) leaves an "
+                f"undefined reference when the parts are linked - wrapping a blank file alone yields an empty initialiser, not nothing", loc)
+        if name == "wrap_submodule" and wrapped:
+            src = func_params(fn)[1]
+            wf_call = next((c for c in ast.walk(inline_locals(fn, wrapped[0][2])) if isinstance(c, ast.Call) and unparse(c.func) == "self.wrap_file"), None)
+            b = bind_call(prog.method("PybindWrapper", "wrap_file"), wf_call, drop_self=True) if wf_call is not None else {}
+            init_name = unparse(inline_locals(fn, b["module_name"])) if "module_name" in b else None
+            path = unparse(inline_locals(fn, wrapped[0][1]))
+            rep.add(rid, "wrap_submodule:the part is written to <initialiser name>.cpp", init_name is not None and path.replace(" ", "") in
+                    (f"{init_name}+'.cpp'".replace(" ", ""), f"f'{{{init_name}}}.cpp'".replace(" ", "")),
+                    f"written to {path}, initialiser named {init_name} (of {src}): the build lists <stem>.cpp as the output of each additional file", loc)
